@@ -45,6 +45,12 @@ struct is_odd { auto operator()(int const& x) const -> bool { return (x & 1) != 
     VF_E int const* P##_cend(S const& s) { return s.cend(); }                                                          \
     VF_E int* P##_rbegin_base(S& s) { return s.rbegin().base(); }                                                      \
     VF_E int* P##_rend_base(S& s) { return s.rend().base(); }                                                          \
+    VF_E int const* P##_begin_c(S const& s) { return s.begin(); }                                                      \
+    VF_E int const* P##_end_c(S const& s) { return s.end(); }                                                          \
+    VF_E int const* P##_crbegin_base(S const& s) { return s.crbegin().base(); }                                        \
+    VF_E int const* P##_crend_base(S const& s) { return s.crend().base(); }                                            \
+    VF_E int const* P##_rbegin_c_base(S const& s) { return s.rbegin().base(); }                                        \
+    VF_E int const* P##_rend_c_base(S const& s) { return s.rend().base(); }                                            \
     VF_E size_type P##_size(S const& s) { return s.size(); }                                                           \
     VF_E size_type P##_max_size(S const& s) { return s.max_size(); }                                                   \
     VF_E bool P##_empty(S const& s) { return s.empty(); }                                                              \
@@ -108,6 +114,10 @@ VF_E int const* sst_cupper_bound_h(SST const& s, long const& k) { return s.upper
 #define FS_MOD_API(P, F, C)                                                                                            \
     VF_E int* P##_rbegin_base(F& s) { return s.rbegin().base(); }                                                      \
     VF_E int* P##_rend_base(F& s) { return s.rend().base(); }                                                          \
+    VF_E int const* P##_crbegin_base(F const& s) { return s.crbegin().base(); }                                        \
+    VF_E int const* P##_crend_base(F const& s) { return s.crend().base(); }                                            \
+    VF_E int const* P##_rbegin_c_base(F const& s) { return s.rbegin().base(); }                                        \
+    VF_E int const* P##_rend_c_base(F const& s) { return s.rend().base(); }                                            \
     VF_E void P##_ctor_cont(F* out, C const& c) { new (out) F(c); }                                                    \
     VF_E void P##_ctor_range(F* out, int const* f, int const* l) { new (out) F(f, l); }                                \
     VF_E void P##_ctor_sorted_unique_range(F* out, int const* f, int const* l) { new (out) F(etl::sorted_unique, f, l); } \
